@@ -44,9 +44,22 @@ def render_def(name: str, params: List[List[Any]], ret: Optional[str], is_async:
 HEADER = 'import typing\nfrom typing import overload, Literal, List, Dict, Optional, Callable, Any, Tuple\n'
 
 
+def overload_decos(decos: Tuple[str, ...], extra: Tuple[str, ...], pos: str, spell: str = 'overload') -> Tuple[str, ...]:
+    """Decorator lines of an @overload definition. pos: where @overload stands -- 'top' (the order the typing docs
+    prescribe: above @staticmethod/@classmethod and anything else), 'mid', or 'bottom' (innermost)."""
+    rest = extra + decos
+    if pos == 'top' or not rest:
+        return (spell,) + rest
+    if pos == 'mid':
+        return rest[:1] + (spell,) + rest[1:]
+    return rest + (spell,)
+
+
 def make_case(params: List[List[Any]], ret: Optional[str], ctx: str = 'func', overloads: List[Any] = (),
-              stream: str = 'gen') -> Dict[str, Any]:
-    """ctx: func | async | method | amethod | static | classm | stub (overloads only, no implementation)"""
+              stream: str = 'gen', ov_pos: str = 'bottom', extra: Tuple[str, ...] = (), spell: str = 'overload'
+              ) -> Dict[str, Any]:
+    """ctx: func | async | method | amethod | static | classm | stub (overloads only, no implementation)
+    extra: further decorators on every definition; ov_pos/spell: see overload_decos"""
     in_class = ctx in ('method', 'amethod', 'static', 'classm')
     ind = '    ' if in_class else ''
     src = HEADER
@@ -55,9 +68,9 @@ def make_case(params: List[List[Any]], ret: Optional[str], ctx: str = 'func', ov
     is_async = ctx in ('async', 'amethod')
     decos: Tuple[str, ...] = {'static': ('staticmethod',), 'classm': ('classmethod',)}.get(ctx, ())
     for ovp, ovr in overloads:
-        src += render_def('f', ovp, ovr, is_async, decos + ('overload',), ind, '...')
+        src += render_def('f', ovp, ovr, is_async, overload_decos(decos, extra, ov_pos, spell), ind, '...')
     if ctx != 'stub':
-        src += render_def('f', params, ret, is_async, decos, ind)
+        src += render_def('f', params, ret, is_async, extra + decos, ind)
     return {'t': 'def', 'src': src, 'q': 'C.f' if in_class else 'f', 'stream': stream,
             'layout': {'params': params, 'ret': ret}}
 
@@ -711,6 +724,18 @@ class Check(PropertyCheck):
                                  ([['self', POK, None, None], ['a', PO, None, 'str']], 'str')]),
             make_case([], None, 'stub', overloads=[([['a', PO, '1', None]], 'None'), ([['a', KW, '2', '"T"']], '"R"')]),
         ]
+        ov2 = [([['a', POK, None, 'int']], 'int'), ([['a', PO, None, 'str'], ['b', KW, '1', None]], 'str')]
+        front = []
+        for ctx, extra in (('static', ()), ('classm', ()), ('func', ('deco',)), ('method', ('deco(1)', 'x.y')),
+                           ('stub', ('deco',)), ('amethod', ('deco',))):
+            for pos in ('top', 'mid', 'bottom'):
+                for spell in ('overload', 'typing.overload'):
+                    ps = [['a', POK, None, None]] if ctx in ('static', 'func', 'stub') else \
+                        [['self', POK, None, None], ['a', POK, None, None]]
+                    ovs = ov2 if ctx in ('static', 'func', 'stub') else \
+                        [([['self', POK, None, None]] + p, r) for p, r in ov2]
+                    front.append(make_case(ps, None, ctx, ovs, ov_pos=pos, extra=extra, spell=spell))
+        corpus[0:0] = front
         for e in CORPUS_DEFAULTS:
             corpus.append(make_case([['p', POK, e, None]], None))
         for e in CORPUS_ANNOTS:
@@ -730,7 +755,12 @@ class Check(PropertyCheck):
                 ovs = [(random_params(self.rng, 1, 6), self.rng.choice(RET_ANNOTS)) for _ in range(self.rng.randint(1, 3))]
                 if self.rng.random() < 0.25:
                     ctx = 'stub'
-            out.append(make_case(params, self.rng.choice(RET_ANNOTS), ctx, ovs, stream='random'))
+            extra: Tuple[str, ...] = ()
+            if self.rng.random() < 0.25:
+                extra = tuple(self.rng.sample(['deco', 'deco(1)', 'x.y', 'm.wrap(k=2)'], self.rng.randint(1, 2)))
+            out.append(make_case(params, self.rng.choice(RET_ANNOTS), ctx, ovs, stream='random',
+                                 ov_pos=self.rng.choice(['top', 'top', 'mid', 'bottom']), extra=extra,
+                                 spell=self.rng.choice(['overload', 'overload', 'typing.overload'])))
         # malformed stream: bad string annotations, duplicate names, overloads in odd orders (correspondence only
         # where the source is not a valid definition)
         nbad = 120 if tier == 'quick' else 3000
@@ -1041,7 +1071,7 @@ class Check(PropertyCheck):
     # -------------------------------------------------------------- Spec: how the parser stores defaults
     def to_ast_check(self, cases: List[Dict[str, Any]]) -> List[Violation]:
         sel = [c for c in cases if c.get('layout') and c['stream'] in ('exhaustive', 'random', 'corpus')
-               and c['src'].count('def f(') == 1 and '@overload' not in c['src']]
+               and c['src'].count('def f(') == 1 and 'overload' not in c['src'][len(HEADER):]]
         if self.tier == 'quick':
             sel = sel[:1500] + sel[-200:]
 
